@@ -23,6 +23,8 @@ func init() { streams["c05"] = streamC05 }
 type rawConn struct {
 	c  net.Conn
 	br *bufio.Reader
+	// Set-Cookie values of every response seen on this connection (name=value parts)
+	cookies []string
 }
 
 func dialGateway(g *gwInstance) (*rawConn, error) {
@@ -65,7 +67,32 @@ func (r *rawConn) do(method string, auths []string, upgrade bool) (int, []string
 	if resp.StatusCode != 101 && resp.ContentLength >= 0 {
 		io.Copy(io.Discard, io.LimitReader(resp.Body, 1<<16))
 	}
+	for _, c := range resp.Header.Values("Set-Cookie") {
+		r.cookies = append(r.cookies, strings.SplitN(c, ";", 2)[0])
+	}
 	return resp.StatusCode, resp.Header.Values("Www-Authenticate"), nil
+}
+
+// doPath sends one request for an arbitrary path and extra headers; returns status and the Set-Cookie values.
+func (r *rawConn) doPath(method, path string, hdr map[string]string) (int, []string, error) {
+	var sb strings.Builder
+	fmt.Fprintf(&sb, "%s %s HTTP/1.1\r\nHost: gw\r\nRdg-Connection-Id: {%s}\r\nContent-Length: 0\r\n", method, path, b64(randomBytes(9)))
+	for k, v := range hdr {
+		fmt.Fprintf(&sb, "%s: %s\r\n", k, v)
+	}
+	sb.WriteString("\r\n")
+	r.c.SetDeadline(time.Now().Add(8 * time.Second))
+	if _, err := r.c.Write([]byte(sb.String())); err != nil {
+		return 0, nil, err
+	}
+	resp, err := http.ReadResponse(r.br, &http.Request{Method: "GET"})
+	if err != nil {
+		return 0, nil, err
+	}
+	if resp.StatusCode != 101 && resp.ContentLength >= 0 {
+		io.Copy(io.Discard, io.LimitReader(resp.Body, 1<<16))
+	}
+	return resp.StatusCode, resp.Header.Values("Set-Cookie"), nil
 }
 
 func canonChallenges(ch []string) string {
@@ -243,6 +270,69 @@ func streamC05(env *runEnv) {
 			}
 			env.count("c05.mech." + bits)
 			env.emit("httpauth", bits, q.method, v, basic, ans, valid, obs)
+		}
+		// paths next to the gateway's: only the documented prefix leads to the tunnel handler, and only through
+		// the route table's authentication
+		for _, path := range []string{"/remoteDesktopGateway", "/remoteDesktopGateway/x", "/remoteDesktopGatewayX/", "/RemoteDesktopGateway/",
+			"//remoteDesktopGateway/", "/remoteDesktopGateway//", "/x/../remoteDesktopGateway/"} {
+			for _, method := range []string{"RDG_OUT_DATA", "GET"} {
+				obs := "neterr"
+				if c, err := dialGateway(g); err == nil {
+					st, _, e := c.doPath(method, path, nil)
+					if e == nil {
+						obs = fmt.Sprintf("st=%d", st)
+					}
+					c.c.Close()
+				}
+				env.count("c05.pathprobe")
+				env.emit("pathprobe", bits, method, hx([]byte(path)), obs)
+			}
+		}
+		// a session cookie is not a credential for the gateway endpoint: the cookie of a connection that completed
+		// an NTLM exchange (or of a browser session) replayed on another connection with a rubbish message
+		if m.ntlm {
+			obs := "no-cookie"
+			if c1, err := dialGateway(g); err == nil {
+				st, _, _ := runNtlmSeq(g, c1, c05req{method: "GET", ntlmSeq: "full:1:pw1"})
+				c1.c.Close()
+				obs = fmt.Sprintf("first=%d no-cookie", st)
+				// every cookie the gateway handed out during the exchange, newest last
+				for i := len(c1.cookies) - 1; i >= 0 && i >= len(c1.cookies)-3; i-- {
+					if c2, err := dialGateway(g); err == nil {
+						st2, _, _ := c2.doPath("GET", "/remoteDesktopGateway/", map[string]string{"Authorization": "NTLM AAAA", "Cookie": c1.cookies[i]})
+						c2.c.Close()
+						obs = fmt.Sprintf("st=%d", st2)
+						if st2 == 200 || st2 == 101 {
+							break
+						}
+					}
+				}
+			}
+			env.count("c05.cookiereplay")
+			env.emit("pathprobe", bits, "GET+session-cookie-of-an-authenticated-connection", hx([]byte("/remoteDesktopGateway/")), obs)
+		}
+		// two requests for one user overlap at the authentication service: each is judged on its own password
+		if m.local && !m.openid {
+			users["slow"], fa.users["slow"] = "pw-slow", "pw-slow"
+			res := make(chan int, 2)
+			go func() {
+				st := 0
+				if c, err := dialGateway(g); err == nil {
+					st, _, _ = c.do("GET", []string{be("slow", "pw-slow")}, false)
+					c.c.Close()
+				}
+				res <- st
+			}()
+			time.Sleep(200 * time.Millisecond)
+			stWrong := 0
+			if c, err := dialGateway(g); err == nil {
+				stWrong, _, _ = c.do("GET", []string{be("slow", "wrong")}, false)
+				c.c.Close()
+			}
+			stRight := <-res
+			env.count("c05.overlap")
+			env.emit("pathprobe", bits, "GET+wrong-password-while-the-right-one-is-being-checked", hx([]byte("/remoteDesktopGateway/")),
+				fmt.Sprintf("st=%d right=%d", stWrong, stRight))
 		}
 		// the tunnel's user is the name the backend confirmed: seen through the host policy, whose only entry
 		// is 127.0.0.<user>:3389 (allowed -> the dial fails with an internal error, otherwise access denied)
